@@ -82,7 +82,11 @@ def compute(f, loop_bound=2):
             evs2 = []
             for e, raw in zip(evs, p["events"]):
                 if raw[0] == "call" and raw[1] in opfns:
-                    e = ("op", raw[1]) + tuple(show(norm(a)) for a in raw[2])
+                    oargs = [show(norm(a)) for a in raw[2]]
+                    order = evalsum.operand_order(f, raw[1])
+                    if len(order) == len(oargs):
+                        oargs = [oargs[i] for i in order]
+                    e = ("op", raw[1]) + tuple(oargs)
                     op_of_kind.setdefault(kind, set()).add(raw[1])
                 evs2.append(tuple(abbr(x) if isinstance(x, str) else x for x in e))
             npaths.append({
